@@ -2,16 +2,80 @@ package lib
 
 import (
 	"encoding/json"
+	"fmt"
+	"os"
+	"strconv"
+	"sync"
+	"sync/atomic"
+
 	"github.com/verily-src/fhirpath-go/fhirpath"
 	"github.com/verily-src/fhirpath-go/fhirpath/internal/expr"
 	"github.com/verily-src/fhirpath-go/fhirpath/internal/funcs/impl"
 	"github.com/verily-src/fhirpath-go/fhirpath/system"
 	"github.com/verily-src/fhirpath-go/internal/fhir"
+	"google.golang.org/protobuf/proto"
 )
 
 // EvalOutcome compiles src and evaluates it on the resources through the
 // public API, under recover and the deadline, and projects the result.
 func EvalOutcome(f *Forest, src string, res []fhir.Resource, copts []fhirpath.CompileOption, eopts []fhirpath.EvaluateOption) Outcome {
+	if mutLogOn() {
+		return evalLogged(f, src, res, copts, eopts)
+	}
+	return evalOutcome(f, src, res, copts, eopts)
+}
+
+// Traffic monitor for property C03 (DESIGN.md: "every evaluation of every check carries the mutation report"): when
+// VERIF_MUTLOG names a file, every evaluation made through EvalOutcome by any harness command is bracketed by
+// snapshots of its input resources and the report is appended to that file (one in VERIF_MUTLOG_EVERY calls,
+// default every call). The C03 check collects these files and has them judged.
+var (
+	mutLogOnce sync.Once
+	mutLogW    *Writer
+	mutLogN    int64
+	mutLogStep int64 = 1
+)
+
+func mutLogOn() bool {
+	mutLogOnce.Do(func() {
+		if p := os.Getenv("VERIF_MUTLOG"); p != "" {
+			w, err := NewWriter(fmt.Sprintf("%s.%d", p, os.Getpid()))
+			if err == nil {
+				mutLogW = w
+			}
+			if n, err := strconv.ParseInt(os.Getenv("VERIF_MUTLOG_EVERY"), 10, 64); err == nil && n > 0 {
+				mutLogStep = n
+			}
+		}
+	})
+	return mutLogW != nil
+}
+
+// FlushMutLog must be called by a harness command before it exits.
+func FlushMutLog() {
+	if mutLogW != nil {
+		_ = mutLogW.Close()
+	}
+}
+
+func evalLogged(f *Forest, src string, res []fhir.Resource, copts []fhirpath.CompileOption, eopts []fhirpath.EvaluateOption) Outcome {
+	n := atomic.AddInt64(&mutLogN, 1)
+	if n%mutLogStep != 0 {
+		return evalOutcome(f, src, res, copts, eopts)
+	}
+	msgs := make([]proto.Message, 0, len(res))
+	for _, r := range res {
+		msgs = append(msgs, r)
+	}
+	snap := TakeSnapshot(msgs, nil)
+	out := evalOutcome(f, src, res, copts, eopts)
+	rec := map[string]any{"id": fmt.Sprintf("traffic/%d/%d", os.Getpid(), n), "kind": "traffic", "src": Ascii(trim(src, 300)),
+		"out": Outcome{"k": out["k"], "items": []Item{}}, "mut": snap.Report(), "checkown": false}
+	_ = mutLogW.Write(rec)
+	return out
+}
+
+func evalOutcome(f *Forest, src string, res []fhir.Resource, copts []fhirpath.CompileOption, eopts []fhirpath.EvaluateOption) Outcome {
 	var out Outcome
 	rep := SafeRetry(func() {
 		out = nil
